@@ -55,6 +55,11 @@ type C12Scenario struct {
 	// offset operations on a dead context (as a database driver does), and publishers' "sleep" steps let 3 timeouts
 	// pass. The timeout bounds each append; the subscription's position keeps being saved however old it is.
 	TimeoutMs int `json:"timeout_ms,omitempty"`
+	// Reenter: a subscription's handler, when it is handed an event whose id is 1 modulo 3 by LIVE delivery,
+	// publishes one follow-up event of the same shape on the same bus before it returns (a saga step). The
+	// follow-up is an event like any other: persisted, delivered once, and the saved position never goes back.
+	// Only with a single subscription.
+	Reenter bool `json:"reenter,omitempty"`
 }
 
 // c12SubID: the two subscription ids differ only in letter case - different ids all the same
@@ -75,11 +80,15 @@ func genC12(rt *rapid.T) core.Scenario {
 	if rapid.IntRange(0, 3).Draw(rt, "timeout") == 3 {
 		sc.TimeoutMs = 20
 	}
+	reenter := rapid.IntRange(0, 3).Draw(rt, "reenter") == 3
 	long := rapid.IntRange(0, 5).Draw(rt, "long") == 5 // histories that push the log past 10 entries
 	ns := rapid.IntRange(1, 2).Draw(rt, "nSubs")
 	for i := 0; i < ns; i++ {
 		sc.Subs = append(sc.Subs, rapid.IntRange(0, numStaticShapes-1).Draw(rt, "subShape"))
 	}
+	// (one subscription only: a nested publish reaches every handler of the type before the outer publish has reached
+	// the later ones, so a second subscription would legitimately see the follow-up first)
+	sc.Reenter = reenter && ns == 1
 	ni := rapid.IntRange(1, 3).Draw(rt, "nIncarnations")
 	for n := 0; n < ni; n++ {
 		inc := C12Inc{CrashAtOp: -1}
@@ -167,6 +176,13 @@ func (sc *C12Scenario) Execute(t *testing.T) *core.Outcome {
 	crashed := map[int]bool{}
 	faultFired := false
 	shortReads := 0
+	damaged := map[int]string{}
+	replayedPVal = func(e PVal) {
+		if !pvalIntact(e) {
+			damaged[e.ID] = trunc(string(mustJSON(e)))
+		}
+	}
+	defer func() { replayedPVal = nil }()
 	body := func() {
 		env := newStoreEnv()
 		defer env.Close()
@@ -211,6 +227,8 @@ func (sc *C12Scenario) Execute(t *testing.T) *core.Outcome {
 			subInner = eventbus.NewMemoryStore()
 		}
 		offsetOpsOnEventStore := 0
+		var doPublish func(shape int)
+		followUp := map[int]bool{} // ids of events published from inside a handler (they do not breed)
 		runInc := func(n int, inc C12Inc, final bool) {
 			var inner eventbus.EventStore
 			var err error
@@ -281,6 +299,20 @@ func (sc *C12Scenario) Execute(t *testing.T) *core.Outcome {
 			for k := range subActive {
 				delete(subActive, k)
 			}
+			doPublish = func(shape int) {
+				nextEv++
+				id := nextEv
+				pubInc[id], pubShape[id] = n, shape
+				pubDuringSub[id] = map[int]bool{}
+				for si, a := range subActive {
+					if a {
+						pubDuringSub[id][si] = true
+					}
+				}
+				a := rec.Add("publish", id, shape, "")
+				shapes[shape].Pub(bus, ctx, id, id%6)
+				pubSpan[id] = span{a, rec.Add("publish-ret", id, 0, "")}
+			}
 			subscribe := func(si int) {
 				subActive[si] = true
 				callStamp := rec.Add("subscribe-call", si, n, "")
@@ -291,6 +323,10 @@ func (sc *C12Scenario) Execute(t *testing.T) *core.Outcome {
 					deliveries = append(deliveries, c12Delivery{si, ev, n, rec.Add("deliver", si, ev, "")})
 					for i := 0; i < sc.Yields; i++ {
 						simrt.Yield(siteHandler)
+					}
+					if sc.Reenter && !final && ev%3 == 1 && !subActive[si] && !followUp[ev] && len(followUp) < 6 {
+						followUp[nextEv+1] = true
+						doPublish(sc.Subs[si])
 					}
 				})
 				subActive[si] = false
@@ -316,18 +352,7 @@ func (sc *C12Scenario) Execute(t *testing.T) *core.Outcome {
 						simrt.Sleep(3 * time.Duration(sc.TimeoutMs) * time.Millisecond)
 						continue
 					}
-					nextEv++
-					id := nextEv
-					pubInc[id], pubShape[id] = n, st.Shape
-					pubDuringSub[id] = map[int]bool{}
-					for si, a := range subActive {
-						if a {
-							pubDuringSub[id][si] = true
-						}
-					}
-					a := rec.Add("publish", id, st.Shape, "")
-					shapes[st.Shape].Pub(bus, ctx, id, id%6)
-					pubSpan[id] = span{a, rec.Add("publish-ret", id, 0, "")}
+					doPublish(st.Shape)
 				}
 				bus.Wait()
 			}
@@ -419,6 +444,15 @@ func (sc *C12Scenario) Execute(t *testing.T) *core.Outcome {
 	for n := range crashed {
 		_ = n
 		out.Fault("process-crash-at-store-op")
+	}
+	if len(damaged) > 0 {
+		id := -1
+		for k := range damaged {
+			if id < 0 || k < id {
+				id = k
+			}
+		}
+		out.V("delivered-value-differs", "[%s] a subscription was handed event %d as %s, which is not what decoding the stored event yields (%s)", sc.Store, id, damaged[id], trunc(string(mustJSON(mkPVal(id, id%6)))))
 	}
 	if shortReads > 0 {
 		out.Probe("store-returned-short-pages")
